@@ -445,7 +445,7 @@ PROPERTIES["C13"] = {
          "thorough": ["tuner=surrogate;g=%s;land=%s;evals=%d" % (g, l, e) for g in ("5", "7", "4,3", "5,5", "31") for l in ("corner", "center", "plateau") for e in (10, 20)] + ["tuner=surrogate;g=%s;land=free" % g for g in ("2", "3", "4")],
          "budget": {"quick": {"deadline_s": 60, "max_paths": 20000}, "thorough": {"deadline_s": 900, "max_paths": 400000}},
          "encoded": _C13_ENC},
-        {"engine": "sre", "harness": "C13_tune", "sources": ["C13_tune.cpp"], "concrete_strict": True,
+        {"engine": "sre", "harness": "C13_tune", "sources": ["C13_tune.cpp"], "concrete_strict": True, "replay_env": {"SYM_REPLAY_TOL": "4e-10"},
          "quick": ["n=4;folds=2;g=3;evals=10;per=1", "n=5;folds=3;g=5;evals=10;per=1", "n=4;folds=2;g=7;evals=10;per=1;order=1", "n=4;folds=2;g=0", "n=4;folds=2;g=2;evals=10;per=2", "n=6;folds=3;g=9;evals=10;per=1;order=1"],
          "thorough": ["n=%d;folds=%d;g=%d;evals=%d;per=1;order=%d" % (n, f, g, e, o) for (n, f, g, e, o) in ((4, 2, 3, 10, 0), (5, 3, 5, 10, 0), (4, 2, 7, 10, 1), (6, 3, 9, 10, 1), (6, 2, 6, 10, 0), (4, 2, 4, 20, 0), (5, 2, 13, 12, 1), (8, 4, 4, 10, 0))] +
                      ["n=4;folds=2;g=0", "n=6;folds=3;g=0;per=2", "n=4;folds=2;g=2;evals=10;per=2", "n=4;folds=2;g=3;evals=10;per=2"],
